@@ -1503,3 +1503,62 @@ Lemma api_parse_table args dict_none :
   | _, false => None
   end.
 Proof. destruct args as [[|x a]|], dict_none; reflexivity. Qed.
+
+(** * A whole-program instance: straight-line probe steps run in order and leave no residue *)
+Definition plain_probe (tag : string) : step :=
+  mkstep "vprobe" BProbe (Some [(VStr "ptag", VStr tag)]) None None None
+         (VBool true) (VBool false) (VBool false) None None.
+
+Definition probe_event (s : st) (tag : string) : val :=
+  VList [VStr tag; getm "i" s; getm "whileCounter" s; getm "retryCounter" s;
+         VInt (Z.of_nat (List.length (stack s))); VStr (current_pipe s); VList []].
+
+Lemma dict_pop_set_absent k v d :
+  dict_get (VStr k) d = None -> dict_pop (VStr k) (dict_set (VStr k) v d) = d.
+Proof.
+  unfold dict_pop. induction d as [|[k' v'] d IH]; simpl; intros H.
+  - now rewrite val_eqb_VStr, String.eqb_refl.
+  - destruct (val_eqb (VStr k) k') eqn:E; [discriminate|]. simpl. rewrite E. simpl.
+    now rewrite IH.
+Qed.
+
+Lemma dget_set_same k v d : dict_get (VStr k) (dict_set (VStr k) v d) = Some v.
+Proof. exact (sget_sset_same k v d). Qed.
+
+Lemma dget_set_other k k' v d : k <> k' -> dict_get (VStr k') (dict_set (VStr k) v d) = dict_get (VStr k') d.
+Proof. exact (sget_sset_other k k' v d). Qed.
+
+Section Straight.
+  Variable rg : list val -> option string -> option string -> st -> R.
+  Variable rp : string -> option (list string) -> option (list val) -> option string -> option string -> st -> R.
+
+  Lemma run_step_plain_probe tag s :
+    sget "ptag" (ctx s) = None -> sget "pwatch" (ctx s) = None ->
+    run_step rg rp (plain_probe tag) s =
+    (OOk, mkst (ctx s) (stack s) (trace s ++ [probe_event s tag]) (sleeps s) (next_eid s) (jit s)).
+  Proof.
+    destruct s as [c k tr sl ne j]. unfold sget. cbn [ctx]. intros Hp Hw.
+    unfold run_step, plain_probe, foreach_or_cond, has_foreach, cond, invoke, run_body, probe_step,
+      set_step_input, unset_step_input, probe_event, getm, sget, current_pipe, add_trace, set_ctx,
+      dict_update, andthen.
+    cbn [s_in s_while s_foreach s_run s_skip s_retry s_body opt_truth as_bool py_truth lift negb
+         ctx stack trace sleeps next_eid jit fold_left fst snd].
+    rewrite dget_set_same.
+    rewrite !dget_set_other by discriminate.
+    rewrite Hw.
+    rewrite dict_pop_set_absent by exact Hp.
+    reflexivity.
+  Qed.
+
+  Theorem run_steps_plain_probes tags : forall s,
+    sget "ptag" (ctx s) = None -> sget "pwatch" (ctx s) = None ->
+    run_steps rg rp (map plain_probe tags) s =
+    (OOk, mkst (ctx s) (stack s) (trace s ++ map (probe_event s) tags) (sleeps s) (next_eid s) (jit s)).
+  Proof.
+    induction tags as [|t tags IH]; intros s Hp Hw.
+    - simpl. rewrite app_nil_r. destruct s; reflexivity.
+    - cbn [map run_steps]. rewrite (run_step_plain_probe t s Hp Hw). cbn [andthen].
+      rewrite IH by (cbn [ctx]; assumption). cbn [ctx stack trace sleeps next_eid jit].
+      rewrite <- app_assoc. reflexivity.
+  Qed.
+End Straight.
